@@ -47,5 +47,5 @@ pub const AGGREGATE: [&str; 6] = [
     "SELECT k, COUNT(*) AS n FROM t GROUP BY k HAVING COUNT(*) > 1",
     "SELECT DISTINCT COUNT(*) AS n FROM t GROUP BY k",
     "SELECT v, COUNT(DISTINCT k) AS n FROM t WHERE v IS NOT NULL GROUP BY v",
-    "SELECT k, MAX(v) - MIN(v) AS spread FROM t GROUP BY k HAVING MAX(v) >= 1",
+    "SELECT k, MAX(v) + 1 AS top FROM t GROUP BY k HAVING MAX(v) >= 1",
 ];
